@@ -248,6 +248,26 @@ func runC18(w *mon.W) {
 			for _, c := range cuts {
 				c18Compromise(w, id, tid, t1, t2, s1, s2, c, r)
 			}
+			// a compromise table is a table: combined once more (three organisms), its rows - every one summing to
+			// about 10000 - are scaled like any other
+			if k%4 == 1 {
+				if ct, err := codon.CompromiseCodonTable(t1, t2, 0); err == nil {
+					full := true
+					sct := snapshot(ct)
+					for _, l := range sct.letters() {
+						if sct.total(l) == 0 {
+							full = false
+						}
+					}
+					if full {
+						w.Add("compromise_tables_combined_again", 1)
+						t3, s3 := randomFullTable(tid, r)
+						for _, c := range []float64{0, 0.05, 0.2 * r.Float64()} {
+							c18Compromise(w, id, tid, ct, t3, sct, s3, c, r)
+						}
+					}
+				}
+			}
 			// ---- the same two tables re-weighted in place and combined again: the result must follow the
 			// weights the tables hold now, not those of the earlier combinations
 			for round := 0; round < 2; round++ {
